@@ -95,13 +95,13 @@ def u_rules(schema: Schema, rep: Report):
     n = 0
     for ci, nm, fn in groom_overrides(schema):
         n += 1
-        ok, why = chains_to_super(fn, nm, star_args=False)
+        ok, why = chains_to_super(fn, nm, star_args=False, ci=ci)
         rep.check("U-R4", f"{ci.name}.{nm}:chains", ok, f"{ci.name}.{nm} {why}: the shared treatment of vendor tags is switched off for this class" if not ok else "", loc(ci, fn))
         # the value passed up is the (copied) element it worked on
         rets = [r for r in own_nodes(fn) if isinstance(r, ast.Return)]
         for r in rets:
             v = r.value
-            good = isinstance(v, ast.Call) and isinstance(v.func, ast.Attribute) and v.func.attr == nm and len(v.args) == 1 and isinstance(v.args[0], ast.Name)
+            good = isinstance(v, ast.Call) and isinstance(v.func, ast.Attribute) and v.func.attr == nm and len(v.args) == 1 and not isinstance(v.args[0], ast.Constant)
             rep.check("U-R4", f"{ci.name}.{nm}:returns-base-result", good, f"returns {ast.unparse(v) if v else None}, not the base {nm}() of the element" if not good else "", loc(ci, r))
     rep.floor("U-R4", n, 6, "groom/ungroom overrides")
     exo = Expander(outer)
